@@ -40,7 +40,15 @@ def build_kickmap(s, case, a, b, r):
         axis = case["axis"]
         m = s.map_kick(a, b, it, axis)
         offs = np.array(case["offsets"], np.float32)
-        s.map_set_offset(m, offs)
+        if case.get("ramp"):
+            # a long history on the same map: the field creeps to its final value in K tiny steps (a slowly growing wake, a
+            # slow RF modulation).  The particle reads the current field; the charge must, too (round-4 seed C15d: rows
+            # whose field changed by less than a rounding-sized tolerance since the LAST call were not rebuilt)
+            rp = case["ramp"]
+            d = (gen.rng(rp["seed"]).uniform(-1, 1, n) * rp["amp"]).astype(np.float32)
+            s.map_ramp_offset(m, offs - d, offs, rp["K"])
+        else:
+            s.map_set_offset(m, offs)
         return m, axis, s.map_force(m, n)
     if kind == "rf_lin":
         m = s.map_rf_linear(a, b, case["angle"], 5e8, it)
@@ -104,7 +112,7 @@ def run_blob(case):
     across = np.float32(case["across"])
     rr = int(np.floor(across))
     f = float(across) - rr
-    cls = [case["kind"], "it%d" % it, "axis%d" % axis]
+    cls = [case["kind"], "it%d" % it, "axis%d" % axis] + (["ramp_history"] if case.get("ramp") else [])
     if rr + 1 > n - 1:
         # on the last row there is no second row: the blob lives on row rr only
         rows = [(rr, 1.0)]
@@ -175,6 +183,10 @@ def blob_cases(draw):
     if kind == "kick":
         c["axis"] = draw(st.sampled_from([0, 1]))
         c["offsets"] = [gen.offset_mixture(draw, lim) for _ in range(n)]
+        if draw(st.integers(0, 3)) == 0:
+            amp = draw(st.sampled_from([0.05, 0.2, 0.5]))
+            eps = draw(st.sampled_from([1e-6, 3e-6, 1e-5, 1e-4]))
+            c["ramp"] = dict(amp=amp, K=int(min(200000, np.ceil(amp / eps))), seed=draw(st.integers(0, 10000)))
     elif kind in ("rf_lin", "dynrf_lin"):
         c["angle"] = gen.f32(draw(st.floats(1e-3, 0.15)))
     elif kind in ("rf_sin", "dynrf_sin"):
